@@ -196,7 +196,7 @@ def main(args):
     if args.replay:
         with open(args.replay) as f:
             rp = json.load(f)
-        hs = [] if (rp["case"].get("server") or rp["case"].get("glob")) else [(rp["case"]["family"], rp["case"]["history"])]
+        hs = [] if (rp["case"].get("server") or rp["case"].get("glob") or rp["case"].get("race")) else [(rp["case"]["family"], rp["case"]["history"])]
     else:
         hs = gen(run)
     built = [to_harness(i, h) for i, (_, h) in enumerate(hs)]
@@ -216,6 +216,15 @@ def main(args):
             for sig, what in glob_evaluate(h, res):
                 run.diverge(sig, what, {"family": "glob", "glob": True, "history": h}, res)
         run.extra["glob_histories"] = len(ghs)
+    # ---- loads that run WHILE a file is rewritten and invalidated (LoaderRace.tla; yield point ld.read)
+    if not args.replay or rp["case"].get("race"):
+        rhs = [rp["case"]["history"]] if args.replay else race_histories(run)
+        rres = run.harness("loaderrace", [{"id": str(i), "h": h} for i, h in enumerate(rhs)])
+        for h, res in zip(rhs, rres):
+            run.count(vf.digest(["race", h]), any(e["e"] == "edit" for e in h))
+            for sig, what in race_evaluate(h, res):
+                run.diverge(sig, what, {"family": "race", "race": True, "history": h}, res)
+        run.extra["race_histories"] = len(rhs)
     # ---- server level: open / change / save / close histories, with and without a workspace root
     srv = [] if args.replay else gen_server(run)
     if args.replay and rp["case"].get("server"):
@@ -242,6 +251,53 @@ def main(args):
     run.assumptions = ["an edited file is always invalidated (what the server does); edits without invalidation are outside the contract",
                        "order of FileOrder compared as a multiset"]
     run.finish(confirm=lambda d: confirm(run, d))
+
+
+def rcfg(edits, loads, mech, emit):
+    return "CONSTANTS MaxEdits = %d MaxLoads = %d Mech = \"%s\"\nSPECIFICATION Spec\nINVARIANTS CacheNeverStale%s\nCHECK_DEADLOCK FALSE\n" % (edits, loads, mech, " Emit" if emit else "")
+
+
+def race_histories(run):
+    thorough = run.tier == "thorough"
+    bad = run.tlc("LoaderRace", rcfg(2, 2, "unguarded", False), workers=4, allow_violation=True, collect_json=False)
+    if bad.ok or "Invariant CacheNeverStale is violated" not in bad.stdout:
+        vf.die_tooling("LoaderRace.tla: caching whatever was read no longer violates CacheNeverStale — the model is vacuous")
+    r = run.tlc("LoaderRace", rcfg(2, 2 if not thorough else 3, "epoch", True), workers=8, timeout=2400)
+    out = []
+    seen = set()
+    for c in r.json:
+        h = c["h"]
+        # the implementation reads the file on its way to the yield point: only behaviours in which a load's read directly follows its lookup
+        ok = all(h[i + 1]["e"] == "read" and h[i + 1]["id"] == e["id"] for i, e in enumerate(h[:-1]) if e["e"] == "begin") and h[-1]["e"] != "begin"
+        k = json.dumps(h, sort_keys=True)
+        if ok and k not in seen:
+            seen.add(k)
+            out.append(h)
+    cap = 3000 if not thorough else 40000
+    if len(out) > cap:
+        out = run.rng.sample(out, cap)
+    return out
+
+
+def race_evaluate(h, res):
+    if "panic" in res:
+        return [("panic", "loader panicked: " + res["panic"])]
+    if res.get("stuck"):
+        return [("race:stuck", res["stuck"])]
+    divs = []
+    last = max([e["ver"] for e in h if e["e"] == "edit"] + [1])
+    if res["fresh"] != last:
+        vf.die_tooling("loaderrace: a fresh loader serves version %s, the last edit wrote %s" % (res["fresh"], last))
+    if res["final"] != last:
+        divs.append(("race:stale-cache", "after %s a load serves version %d of b.journal, the file holds version %d (a fresh loader serves %d)" % (
+            [(e["e"], e.get("id") or e.get("ver")) for e in h], res["final"], last, res["fresh"])))
+    hits = [e for e in h if e["e"] == "hit"]
+    for e, got in zip(hits, res["hits"]):
+        if got != e["disk"]:
+            divs.append(("race:stale-hit", "load %d (no load in between was still in flight for it) serves version %d, the file holds %d; schedule %s" % (
+                e["id"], got, e["disk"], [(x["e"], x.get("id") or x.get("ver")) for x in h])))
+            break
+    return divs
 
 
 def gcfg(maxops, mech, emit):
@@ -313,6 +369,9 @@ def glob_evaluate(h, res):
 
 def confirm(run, d):
     h = d["case"]["history"]
+    if d["case"].get("race"):
+        res = run.harness("loaderrace", [{"id": "0", "h": h}])[0]
+        return any(sig == d["sig"] for sig, _ in race_evaluate(h, res))
     if d["case"].get("glob"):
         res = run.harness("include", [glob_to_harness(0, h)])[0]
         return any(sig == d["sig"] for sig, _ in glob_evaluate(h, res))
